@@ -37,6 +37,7 @@ def spec_env():
         "cnt": lambda s, lo, hi, x: sum(1 for j in range(lo, hi) if s[j] == x), "ssum": lambda s, lo, hi: sum(s[lo:hi]),
         "same": lambda a, b, lo, hi: all(a[j] == b[j] for j in range(lo, hi)),
     }
+    env["succ"] = S.succ
     env["dnav"] = lambda s, lo=0, hi=None: S.val4(s[lo:len(s) if hi is None else hi])
     env["is_dna"] = lambda s, lo=0, hi=None: all(c in "ACGT" for c in s[lo:len(s) if hi is None else hi])
     def shuffled_row(seed, v):
